@@ -40,6 +40,10 @@ func init() {
 			for i := 0; i < n; i++ {
 				mode := pick(r, "custom", "custom", "constant", "staged", "ramp", "gaussian")
 				ivUS := pick(r, 1000, 2000, 5000, 10000, 20000, 50000, 100000)
+				if mode == "custom" && i%3 == 0 {
+					// intervals that are not a whole number of milliseconds
+					ivUS = pick(r, 1900, 2500, 12345, 1001, 33333)
+				}
 				if i%8 == 7 {
 					ivUS = pick(r, 250000, 1000000)
 				}
@@ -58,6 +62,13 @@ func init() {
 					primes := []int{3, 5, 7, 11, 13, 17, 19, 23, 29, 31, 37, 41, 43, 47, 53, 59, 61, 67, 71, 73, 79, 83, 89, 97, 101, 103, 107, 109, 113}
 					for k := 0; k <= evals; k++ {
 						p.Values = append(p.Values, primes[(k*7+r.IntN(3))%len(primes)]+k*128)
+					}
+					if ivUS%1000 != 0 {
+						// a tick must stay much cheaper than the interval for the cadence to show: few workers, small values
+						c = 16
+						for k := range p.Values {
+							p.Values[k] = 1 + (p.Values[k]+k)%13
+						}
 					}
 					maxv := 0
 					for _, v := range p.Values {
@@ -90,6 +101,27 @@ func init() {
 				cse := core.MkCase("C09", "cadence", i, seed, p)
 				cse.Race = i%3 == 0
 				cse.Procs = pick(r, 1, 2, 16)
+				cse.TimeoutMS = 60000
+				cs = append(cs, cse)
+			}
+			// the run ends by its duration a little after a tick: that tick's value still is that tick's request
+			nlt := 6
+			if tier == "thorough" {
+				nlt = 40
+			}
+			for i := 0; i < nlt; i++ {
+				iv := pick(r, 100, 150, 300)
+				nEv := 2 + r.IntN(3)
+				p := c09Params{Interval: iv * 1000, StopAt: -1, StallAt: -1}
+				for k := 0; k <= nEv+2; k++ {
+					p.Values = append(p.Values, 3+2*k+k*16)
+				}
+				// the last tick inside the run falls 12-28 ms before the point at which triggering stops
+				p.Spec = engine.Spec{Mode: "custom", CustomIntervalUS: iv * 1000, CustomRates: p.Values, Concurrency: 256, MaxDurationMS: (nEv-1)*iv + 10 + 12 + r.IntN(17), IgnoreDropped: true}
+				p.Desc = fmt.Sprintf("last-tick interval=%dms evaluations=%d max-duration=%dms", iv, nEv, p.Spec.MaxDurationMS)
+				cse := core.MkCase("C09", "lasttick", i, seed, p)
+				cse.Race = i%3 == 0
+				cse.Procs = pick(r, 2, 16)
 				cse.TimeoutMS = 60000
 				cs = append(cs, cse)
 			}
@@ -139,9 +171,67 @@ func init() {
 			}
 			return cs
 		},
-		Kinds:  map[string]core.RunFunc{"cadence": c09Cadence, "first": c09First, "zero": c09Zero, "fastticks": c09FastTicks},
+		Kinds:  map[string]core.RunFunc{"cadence": c09Cadence, "first": c09First, "zero": c09Zero, "fastticks": c09FastTicks, "lasttick": c09LastTick},
 		Floors: map[string]int64{"evaluations_checked": 300, "sum_checked_runs": 10, "first_runs": 4, "zero_runs": 4},
 	})
+}
+
+// c09LastTick: a run that ends by max-duration 12-28 ms after its last tick. Every evaluation made at least 8 ms
+// before the deadline f1 armed for triggering is a tick whose value was requested: with idle workers and instant
+// bodies, started + dropped covers the sum of those values (evaluations closer to the deadline may go either way).
+func c09LastTick(c *core.Case, o *core.Outcome) {
+	var p c09Params
+	c.Params(&p)
+	l := engine.NewLog()
+	var started atomic.Int64
+	scenario := func(t *f1testing.T) f1testing.RunFn {
+		return func(t *f1testing.T) { started.Add(1) }
+	}
+	var mu sync.Mutex
+	var deadline time.Time
+	var sure, all int64
+	var nSure, nAll int
+	hooks := &engine.Hooks{
+		OnTrigger: func(ctx context.Context) {
+			mu.Lock()
+			deadline, _ = ctx.Deadline()
+			mu.Unlock()
+		},
+		OnRate: func(k int, _ time.Time, v int) int {
+			now := time.Now()
+			mu.Lock()
+			all += int64(v)
+			nAll++
+			if !deadline.IsZero() && now.Before(deadline.Add(-8*time.Millisecond)) {
+				sure += int64(v)
+				nSure++
+			}
+			mu.Unlock()
+			return v
+		},
+	}
+	r := engine.Execute(context.Background(), p.Spec, l, scenario, hooks, nil)
+	if r.NewErr != nil {
+		o.Inconc("harness: cannot build run: %v", r.NewErr)
+		return
+	}
+	su, fa, dr := resultCounts(r)
+	got := int64(su + fa + dr)
+	o.Events = int64(nAll) + started.Load()
+	if deadline.IsZero() {
+		o.Inconc("the trigger's context carried no deadline (%s)", p.Desc)
+		return
+	}
+	if got < sure || got > all {
+		o.Violate("lasttick:"+p.Desc, "%d evaluations were made at least 8 ms before triggering stopped and their values sum to %d (all %d evaluations: %d); the run reports %d started + dropped: a tick's value did not become that tick's request (%s)", nSure, sure, nAll, all, got, p.Desc)
+		return
+	}
+	o.AddObs("evaluations_checked", int64(nAll))
+	if nSure >= 2 {
+		o.AddObs("last_ticks_checked", 1)
+		o.Sig("lasttick:interval=%dus:sure=%d:all=%d", p.Interval, nSure, nAll)
+	}
+	o.Sample = map[string]any{"case": p.Desc, "sure_evaluations": nSure, "all_evaluations": nAll, "sure_sum": sure, "reported": got}
 }
 
 func c09Cadence(c *core.Case, o *core.Outcome) {
